@@ -278,6 +278,18 @@ def make_region(spec, history=False):
     if history:
         reg.sky_within(probe[0], probe[1], degin=True)
     for op, circ in spec_ops(spec):
+        if op == 'union_deeper':
+            # union(other, renorm=False) with a FINER region: `other` holds pixels below reg.maxdepth only (it was
+            # queried, hence fully demoted, in the history variant), so union() adds nothing through add_pixels and
+            # writes the degraded pixels straight into pixeldict[maxdepth] (round 9: stale lookup caches)
+            other = Region(maxdepth=spec['depth'] + int(circ.get('extra', 1)))
+            other.add_circles(np.radians(circ['ra']), np.radians(circ['dec']), np.radians(circ['radius']))
+            if history:
+                other.sky_within(probe[0], probe[1], degin=True)
+            reg.union(other, renorm=False)
+            if history:
+                reg.sky_within(probe[0], probe[1], degin=True)
+            continue
         other = Region(maxdepth=spec['depth'])
         other.add_circles(np.radians(circ['ra']), np.radians(circ['dec']), np.radians(circ['radius']))
         getattr(reg, OPS[op])(other)
@@ -299,12 +311,15 @@ def geometric_bounds(spec, ra, dec):
     import healpy as hp
     m = 3.0 * float(np.degrees(hp.max_pixrad(2 ** spec['depth']))) + 1e-7
 
-    def circ(c):
+    def circ(c, slack=1.0):
         d = angdist(ra, dec, c['ra'], c['dec'])
-        return d < c['radius'] - 1e-7, d < c['radius'] + m
+        return d < c['radius'] - 1e-7, d < c['radius'] + slack * m
     lo, hi = circ(spec)
     for op, c in spec_ops(spec):
-        blo, bhi = circ(c)
+        # a finer region degraded to this depth: inclusive disc at the finer depth + up to one coarse pixel diameter
+        blo, bhi = circ(c, 2.0) if op == 'union_deeper' else circ(c)
+        if op == 'union_deeper':
+            op = 'union'
         if op == 'without':
             lo, hi = lo & ~bhi, hi & ~blo
         elif op == 'intersect':
@@ -947,6 +962,16 @@ def finder_edit_runs(ctx, rng, n, deep):
                 a, d = sky(rng.uniform(0, H - 1), rng.uniform(0, W - 1))
             spec['ops'].append(dict(op=str(rng.choice(['without', 'without', 'intersect', 'symdiff', 'union'])),
                                     ra=a, dec=d, radius=float(0.01 * rng.uniform(4, 12))))
+        if not deep and k % 2 == 0:
+            # round 9: the LAST edit is a union with a finer, fully demoted region without renormalisation
+            if isl:
+                pr, pq = isl[rng.integers(0, len(isl))][1][0]
+                a, d = sky(pr + rng.uniform(-2, 2), pq + rng.uniform(-2, 2))
+            else:
+                a, d = sky(rng.uniform(0, H - 1), rng.uniform(0, W - 1))
+            spec['ops'].append(dict(op='union_deeper', extra=int(rng.choice([1, 2])), ra=a, dec=d,
+                                    radius=float(0.01 * rng.uniform(4, 12))))
+            nops += 1
         c = base.mk_case('finder', im, np.zeros_like(im), np.ones_like(im), 4.0, 5.0,
                          extra=dict(finder=True, region=spec, hdr=over, region_history=bool(nops) and (not deep or k % 2 == 0),
                                     routes=routes_for(ctx, k)))
